@@ -1,6 +1,8 @@
 /- driver engine `amt`: C15 model + spec behind the line protocol -/
 import MW.Model.Amount
 import MW.Spec.Amount
+import MW.Model.AmountCli
+import MW.Spec.AmountCli
 namespace MW.Drv.Amt
 open MW
 
@@ -23,6 +25,13 @@ def step (st : St) (args : List String) : St × String :=
     | some s =>
       let m := showNat (Model.Amount.parse s)
       let sp := match Spec.Amount.parse s with | some n => s!"ok {n}" | none => "err"
+      (st, m ++ "\t" ++ sp)
+  | ["cli", h] =>
+    match Hex.decode h with
+    | none => (st, "bad-op")
+    | some s =>
+      let m := showNat (Model.Amount.cliParse s)
+      let sp := match Spec.Amount.cliParse s with | some n => s!"ok {n}" | none => "err"
       (st, m ++ "\t" ++ sp)
   | [op, n] =>
     if op ≠ "format" ∧ op ≠ "format2" then (st, "bad-op") else
